@@ -66,7 +66,7 @@ def zero_count_specs():
 
 
 def specs(tier: str):
-    return zero_count_specs() + families.skip_specs("zero", tier) + families.c01_specs(tier, kmode="zero", extra_trivia=("cm_nonatomic",)) + recursive_specs()
+    return zero_count_specs() + families.skip_specs("zero", tier) + families.metachar_specs("zero", tier) + families.builtin_specs("zero", tier) + families.c01_specs(tier, kmode="zero", extra_trivia=("cm_nonatomic",)) + recursive_specs()
 
 
 def run(tier: str) -> int:
@@ -74,7 +74,7 @@ def run(tier: str) -> int:
     return gc.run_model_check(
         C07(), specs(tier), tier, "exploration",
         bounds=[{"top": [{"n": n, "modifiers": list(m), "trivia": list(t)} for n, m, t in b["top"]], "contexts": [{"hole_size": h, "trivia": list(t)} for h, t in b["ctx"]], "max_inputs_per_rule": b["max_inputs"]}],
-        rule=families.c01_rule_text() + families.SKIP_RULE_TEXT + "; plus the zero-counts family: {0} {,0} {0,0} {0,} {0,1} {0,2} {,1} over seven operands (literal, rule, ANY, sequence, choice, POP, PUSH) in eleven contexts, with and without implicit whitespace, inputs over {a,b,space} up to length 3"
+        rule=families.c01_rule_text() + families.SKIP_RULE_TEXT + families.META_RULE_TEXT + families.BUILTIN_RULE_TEXT + "; plus the zero-counts family: {0} {,0} {0,0} {0,} {0,1} {0,2} {,1} over seven operands (literal, rule, ANY, sequence, choice, POP, PUSH) in eleven contexts, with and without implicit whitespace, inputs over {a,b,space} up to length 3"
              "; plus one recursive template p = { \"(\" ~ p ~ \")\" | \"a\" } with inputs up to length 5. Oracle: in each of the four modes the only outcomes are Pairs or PestParsingError "
              "(any other exception, or the 20 s watchdog, is a violation) and an immediately repeated call returns an equal observation (tree, or furthest_pos + expected/unexpected sets). "
              "The families are chosen because escaping exceptions live in uncommon paths: empty stack, zero iterations, input ending mid-construct. Non-trivial: the first mode returned at least one pair",
